@@ -48,6 +48,12 @@ def check(ctx):
                     if v_ and arms_:
                         eq_t, ne_t = (arms_[0][1], arms_[0][2]) if lib.tail(mir.fn_name(fr_), 1) == "eq" else (arms_[0][2], arms_[0][1])
                         cmp_form = (v_, eq_t, ne_t, b_)
+        if cmp_form is None and len(sws) == 1:
+            # `if let ReactorMode::Persistent = self { .. }` and the rest: a switch that lists only Persistent, every other mode
+            # falls through - the same two-way form as the comparison
+            ea_ = lib.enum_arms(prep, prog, sws[0][0])
+            if ea_ and set(ea_[0]) == {"Persistent"} and not prep.is_unreachable_block(ea_[1]):
+                cmp_form = ("Persistent", ea_[0]["Persistent"], ea_[1], sws[0][0])
         if cmp_form is not None and cmp_form[0] == "Persistent":
             ctx.ok("C07.a", "floor:match on ReactorMode", prep.loc(cmp_form[3]), "mode compared with ReactorMode::Persistent")
             ctx.ok("C07.a", "ReactorMode::prepare:match-exhaustive", prep.loc(cmp_form[3]), "two-way comparison: Persistent / every other mode")
